@@ -103,13 +103,23 @@ class DWT1DInverse(nn.Module):
         x0, highs = coeffs
         assert x0.ndim == 3, "Can only handle 3d inputs (N, C, L)"
         mode = lowlevel.mode_to_int(self.mode)
+        # The length of each scale. A scale given as None has the length
+        # implied by the nearest finer scale that was given
+        sizes = [None if x1 is None else x1.shape[-1] for x1 in highs]
+        for j in range(1, len(sizes)):
+            if sizes[j] is None and sizes[j-1] is not None:
+                sizes[j] = pywt.dwt_coeff_len(
+                    sizes[j-1], self.g0.numel(), self.mode)
+
         # Do a multilevel inverse transform
-        for x1 in highs[::-1]:
-            if x1 is None:
-                x1 = torch.zeros_like(x0)
+        for x1, size in zip(highs[::-1], sizes[::-1]):
+            if size is None:
+                size = x0.shape[-1]
 
             # 'Unpad' added signal
-            if x0.shape[-1] > x1.shape[-1]:
+            if x0.shape[-1] > size:
                 x0 = x0[..., :-1]
+            if x1 is None:
+                x1 = torch.zeros_like(x0)
             x0 = lowlevel.SFB1D.apply(x0, x1, self.g0, self.g1, mode)
         return x0
